@@ -33,17 +33,26 @@ fn params(max_gas_per_tx: Word) -> CheckPredicateParams {
     }
 }
 
-fn any_outcome(index: usize) -> Result<Word, PredicateVerificationFailed> {
-    let k: u8 = kani::any();
-    kani::assume(k < 4);
-    match k {
-        0 => Ok(kani::any()),
-        1 => Err(PredicateVerificationFailed::False { index }),
-        2 => Err(PredicateVerificationFailed::GasMismatch { index }),
-        _ => Err(PredicateVerificationFailed::InvalidOwner { index }),
+/// An arbitrary per-predicate outcome as a plain descriptor (kind, gas); the Result handed to the code
+/// under test is built from it each time it is needed (cloning / dropping PredicateVerificationFailed
+/// values with a symbolic variant drags the drop glue of every variant into the formula).
+#[derive(Clone, Copy)]
+struct Outcome { kind: u8, gas: Word }
+impl Outcome {
+    fn any() -> Self { let kind: u8 = kani::any(); kani::assume(kind < 4); Outcome { kind, gas: kani::any() } }
+    fn is_ok(&self) -> bool { self.kind == 0 }
+    fn clone(&self) -> Self { *self }
+    fn mk(&self, index: usize) -> Result<Word, PredicateVerificationFailed> {
+        match self.kind {
+            0 => Ok(self.gas),
+            1 => Err(PredicateVerificationFailed::False { index }),
+            2 => Err(PredicateVerificationFailed::GasMismatch { index }),
+            _ => Err(PredicateVerificationFailed::InvalidOwner { index }),
+        }
     }
 }
-fn gas_of(r: &Result<Word, PredicateVerificationFailed>) -> Option<Word> { match r { Ok(g) => Some(*g), Err(_) => None } }
+fn any_outcome(_index: usize) -> Outcome { Outcome::any() }
+fn gas_of(r: &Outcome) -> Option<Word> { if r.is_ok() { Some(r.gas) } else { None } }
 
 macro_rules! ph {
     ($name:ident, $body:block) => {
@@ -66,15 +75,15 @@ ph!(c20_finalize_order_independent, {
     let tx = tx3();
     let p = params(kani::any());
     let (r0, r1, r2) = (any_outcome(0), any_outcome(1), any_outcome(2));
-    let seq = alloc::vec![(0usize, r0.clone()), (1usize, r1.clone()), (2usize, r2.clone())];
+    let seq = alloc::vec![(0usize, r0.mk(0)), (1usize, r1.mk(1)), (2usize, r2.mk(2))];
     let perm: u8 = kani::any();
     kani::assume(perm < 5);
     let par = match perm {
-        0 => alloc::vec![(0usize, r0.clone()), (2usize, r2.clone()), (1usize, r1.clone())],
-        1 => alloc::vec![(1usize, r1.clone()), (0usize, r0.clone()), (2usize, r2.clone())],
-        2 => alloc::vec![(1usize, r1.clone()), (2usize, r2.clone()), (0usize, r0.clone())],
-        3 => alloc::vec![(2usize, r2.clone()), (0usize, r0.clone()), (1usize, r1.clone())],
-        _ => alloc::vec![(2usize, r2.clone()), (1usize, r1.clone()), (0usize, r0.clone())],
+        0 => alloc::vec![(0usize, r0.mk(0)), (2usize, r2.mk(2)), (1usize, r1.mk(1))],
+        1 => alloc::vec![(1usize, r1.mk(1)), (0usize, r0.mk(0)), (2usize, r2.mk(2))],
+        2 => alloc::vec![(1usize, r1.mk(1)), (2usize, r2.mk(2)), (0usize, r0.mk(0))],
+        3 => alloc::vec![(2usize, r2.mk(2)), (0usize, r0.mk(0)), (1usize, r1.mk(1))],
+        _ => alloc::vec![(2usize, r2.mk(2)), (1usize, r1.mk(1)), (0usize, r0.mk(0))],
     };
     let a = finalize_check_predicate(PredicateRunKind::Verifying(&tx), seq, &p);
     let b = finalize_check_predicate(PredicateRunKind::Verifying(&tx), par, &p);
@@ -97,6 +106,7 @@ ph!(c20_finalize_order_independent, {
         kani::cover!(all_ok, "gas total overflow");
         kani::cover!(!all_ok, "failed predicate");
     }
+    core::mem::forget(a); core::mem::forget(b);
     core::mem::forget(tx);
 });
 
@@ -107,11 +117,12 @@ ph!(c20_finalize_estimation_writes_gas, {
         alloc::vec![pred(g0), msg_pred(g1), msg_data_pred(g2)], Vec::new(), Vec::new());
     let p = params(u64::MAX);
     let (r0, r1, r2) = (any_outcome(0), any_outcome(1), any_outcome(2));
-    let checks = alloc::vec![(2usize, r2.clone()), (0usize, r0.clone()), (1usize, r1.clone())];
-    let _ = finalize_check_predicate(PredicateRunKind::Estimating(&mut tx), checks, &p);
+    let checks = alloc::vec![(2usize, r2.mk(2)), (0usize, r0.mk(0)), (1usize, r1.mk(1))];
+    let res = finalize_check_predicate(PredicateRunKind::Estimating(&mut tx), checks, &p);
+    core::mem::forget(res);
     assert!(tx.inputs()[0].predicate_gas_used() == Some(gas_of(&r0).unwrap_or(g0)));
     assert!(tx.inputs()[1].predicate_gas_used() == Some(gas_of(&r1).unwrap_or(g1)));
     assert!(tx.inputs()[2].predicate_gas_used() == Some(gas_of(&r2).unwrap_or(g2)));
-    kani::cover!(r0.is_ok() && r1.is_err(), "mixed outcomes");
+    kani::cover!(r0.is_ok() && !r1.is_ok(), "mixed outcomes");
     core::mem::forget(tx);
 });
